@@ -141,10 +141,12 @@ class Proxy(object):
     f2 = w.fault_at('interrupt', k)
     if f2:
       budget = [f2.get('steps', 1)]
+      tripped = [False]
 
       def handler():
         budget[0] -= 1
         if budget[0] <= 0:
+          tripped[0] = True
           return 1
         return 0
       self.c.set_progress_handler(handler, 1)
@@ -173,7 +175,8 @@ class Proxy(object):
         if 'interrupted' in msg and not f2:
           st.error = 'TooExpensive'
           raise TooExpensive('statement %d exceeded the VM step budget' % k)
-        if 'interrupted' in msg:
+        if f2 and tripped[0]:
+          # SQLite reports an interrupted ATTACH as "unable to open database"
           w.fired.append(('interrupt', k))
         elif 'full' in msg:
           w.fired.append(('full', k))
